@@ -1538,8 +1538,14 @@ impl FixtureDatabase {
         let mut visited: HashSet<String> = HashSet::new();
         let mut seen_cycles: HashSet<String> = HashSet::new(); // Deduplicate cycles
 
+        // The DFS roots are taken in name order, not in the hash order of `dep_graph`: which
+        // cycles are found, and the fixture each one is reported on, must not change from one
+        // computation to the next.
+        let mut roots: Vec<&String> = dep_graph.keys().collect();
+        roots.sort();
+
         // Iterative DFS using explicit stack
-        for start_fixture in dep_graph.keys() {
+        for start_fixture in roots {
             if visited.contains(start_fixture) {
                 continue;
             }
